@@ -5,7 +5,7 @@ evaluates the REAL trompeloeil matcher for every term against every subject valu
 Every term has (a) a C++ expression building the real matcher, (b) the abstract term
 {"k": kind, "v": int, "c": [children]} the TLA+ spec (Matchers.tla / Ranges.tla) interprets.
 The driver logs {"id", "x", "res"}; the catalogue is merged in by the orchestrator."""
-import itertools, json, os, random, sys
+import itertools, json, os, random, re, sys
 
 NTU = 16
 VALS = [0, 1, 2]
@@ -114,11 +114,26 @@ def scalar_catalogue(tier, rnd):
     for pat, flags in (('a', ''), ('^b', ''), ('A', 'std::regex_constants::icase'), ('b$', ''), ('a.*b', ''),
                        ('^$', ''), ('.*', ''), ('a*', ''), ('^(ab)?$', ''), ('', '')):        # patterns that are found in the empty string
         arg = '"%s"' % pat + (', ' + flags if flags else '')
-        cat.append(('cstr:' + pat + ':' + flags, T('re'), 'trompeloeil::re(%s)' % arg))
-        cat.append(('cstr:' + pat + ':' + flags, T('not', 0, [T('re')]), '!trompeloeil::re(%s)' % arg))
-        cat.append(('sstr:' + pat + ':' + flags, T('re'), 'trompeloeil::re(%s)' % arg))
-        cat.append(('sstr:' + pat + ':' + flags, T('re'), 'trompeloeil::re<std::string const&>(%s)' % arg))
-        cat.append(('cstr:' + pat + ':' + flags, T('re'), 'trompeloeil::re<char const*>(%s)' % arg))
+        cat.append(('cstr;' + pat + ';' + flags, T('re'), 'trompeloeil::re(%s)' % arg))
+        cat.append(('cstr;' + pat + ';' + flags, T('not', 0, [T('re')]), '!trompeloeil::re(%s)' % arg))
+        cat.append(('sstr;' + pat + ';' + flags, T('re'), 'trompeloeil::re(%s)' % arg))
+        cat.append(('sstr;' + pat + ';' + flags, T('re'), 'trompeloeil::re<std::string const&>(%s)' % arg))
+        cat.append(('cstr;' + pat + ';' + flags, T('re'), 'trompeloeil::re<char const*>(%s)' % arg))
+    # match flags: re(s, match_flag) and re(s, syntax, match_flag); the independent search in the driver gets the same flags
+    MF = 'std::regex_constants::'
+    for pat, syn, mf in (('b$', '', 'match_not_eol'), ('^a', '', 'match_not_bol'), ('B$', 'icase', 'match_not_eol'), ('^A', 'icase', 'match_not_bol'),
+                         ('a', 'ECMAScript', 'match_not_null'), ('^$', 'extended', 'match_not_null'), ('b$', 'icase', 'match_default')):
+        arg = '"%s"' % pat + ((', ' + MF + syn) if syn else '') + ', ' + MF + mf
+        kindtail = pat + ';' + ((MF + syn) if syn else '') + ';' + MF + mf
+        for subj in ('cstr;', 'sstr;'):
+            cat.append((subj + kindtail, T('re'), 'trompeloeil::re(%s)' % arg))
+            cat.append((subj + kindtail, T('not', 0, [T('re')]), '!trompeloeil::re(%s)' % arg))
+        cat.append(('cstr;' + kindtail, T('re'), 'trompeloeil::re<char const*>(%s)' % arg))
+    # operands that are NAMED non-const objects used to build two matchers (the first must not consume them)
+    for k in CMP:
+        cat.append(('str', T(k, 1), 'std::string sv("a"); auto first = trompeloeil::ne(sv); (void)first; @@ trompeloeil::%s(sv)' % k))
+    cat.append(('str', T('any_of', 0, [T('val', 1), T('val', 2)]), 'std::string sa("a"), sb("b"); auto first = trompeloeil::any_of(sa, sb); (void)first; @@ trompeloeil::any_of(sa, sb)'))
+    cat.append(('str', T('val', 1), 'std::string sv("a"); auto first = trompeloeil::eq(sv); (void)first; @@ sv'))
     return cat
 
 # ----- range terms
@@ -245,6 +260,9 @@ int main(int argc, char** argv) {
 '''
 
 def scalar_block(i, kind, cpp):
+    if '@@' in cpp:
+        pre, cpp = [x.strip() for x in cpp.split('@@')]
+        return '{ ' + pre + ' ' + scalar_block(i, kind, cpp) + ' }'
     if kind == 'int':
         import re as _re
         desc = ''
@@ -266,18 +284,23 @@ def scalar_block(i, kind, cpp):
     if kind == 'str':
         return ('{ MM m; auto e = NAMED_ALLOW_CALL(m, fs(%s)); int idx = 0; for (char const* x : {"", "a", "b"}) { char b[96]; '
                 'std::snprintf(b, sizeof b, "{\\"n\\":0,\\"v\\":%%d,\\"f\\":[0,0],\\"found\\":0}", idx++); std::string xs(x); logres(%d, b, probe([&]{ m.fs(xs); })); } }' % (cpp, i))
-    if kind.startswith('cstr:') or kind.startswith('sstr:'):
-        _, pat, flags = kind.split(':', 2)
+    if kind.startswith('cstr;') or kind.startswith('sstr;'):
+        # kind = subject : pattern : syntax flags [: match flags]   (flag names contain '::', split on the single colons only)
+        fields = kind.split(';')
+        pat = fields[1]
+        flags = fields[2] if len(fields) > 2 else ''
+        mflags = fields[3] if len(fields) > 3 else ''
         rx = 'std::regex rx("%s"%s);' % (pat, (', ' + flags) if flags else '')
-        if kind.startswith('cstr:'):
+        srch = (', ' + mflags) if mflags else ''
+        if kind.startswith('cstr;'):
             return ('{ MM m; auto e = NAMED_ALLOW_CALL(m, fcs(%s)); %s for (char const* x : {(char const*)nullptr, "", "a", "b", "ab", "ba", "xaxbx", "B"}) { '
-                    'int found = x ? int(std::regex_search(x, rx)) : 0; char b[96]; '
+                    'int found = x ? int(std::regex_search(x, rx%s)) : 0; char b[96]; '
                     'std::snprintf(b, sizeof b, "{\\"n\\":%%d,\\"v\\":0,\\"f\\":[0,0],\\"found\\":%%d}", int(x == nullptr), found); logres(%d, b, probe([&]{ m.fcs(x); })); } }'
-                    % (cpp, rx, i))
+                    % (cpp, rx, srch, i))
         return ('{ MM m; auto e = NAMED_ALLOW_CALL(m, fs(%s)); %s for (char const* x : {"", "a", "b", "ab", "ba", "xaxbx", "B"}) { std::string xs(x); '
-                'int found = int(std::regex_search(xs, rx)); char b[96]; '
+                'int found = int(std::regex_search(xs, rx%s)); char b[96]; '
                 'std::snprintf(b, sizeof b, "{\\"n\\":0,\\"v\\":0,\\"f\\":[0,0],\\"found\\":%%d}", found); logres(%d, b, probe([&]{ m.fs(xs); })); } }'
-                % (cpp, rx, i))
+                % (cpp, rx, srch, i))
     raise ValueError(kind)
 
 def range_block(i, cpp):
@@ -298,7 +321,7 @@ def emit(outdir, what, tier, seed, skip=()):
     if what == 'scalar':
         cat = scalar_catalogue(tier, rnd)
         blocks = [scalar_block(i, k, c) for i, (k, t, c) in enumerate(cat)]
-        catalogue = [dict(id=i, subject=k.split(':')[0], term=t, cpp=c) for i, (k, t, c) in enumerate(cat)]
+        catalogue = [dict(id=i, subject=k.split(';')[0], term=t, cpp=c) for i, (k, t, c) in enumerate(cat)]
     else:
         cat = range_catalogue(tier, rnd)
         # forms whose single-element compile probe failed are reported by the check and left out here
